@@ -220,7 +220,9 @@ fn polylines(d: &mut Dec, cx: &mut Cx) -> Res {
 
 /// Triangles spanning 100..=300 px.
 fn triangles_large(d: &mut Dec, cx: &mut Cx) -> Res {
-    let Shape::Triangle(t) = gen::large_shape(d, 4, 100, 300) else { unreachable!() };
+    // one large triangle in six spans up to 1024 px (display scale), the others 100..=300
+    let hi = if d.aux_u(7, 0, 5) == 5 { 1024 } else { 300 };
+    let Shape::Triangle(t) = gen::large_shape(d, 4, 100, hi) else { unreachable!() };
     let far = gen::far_offset(d);
     let t = t.translate(far);
     let [a, b, c] = t.vertices;
